@@ -144,7 +144,7 @@ def _frame(ck, fx):
                 el = [x for x in body if x[0] in ("r", "sub")]
                 shape.append(("count%d" % it[1], "sub:" + el[0][1] if el and el[0][0] == "sub" else ("r%d" % el[0][1] if el else "?")))
                 rng = items[i + 1][1]
-                end = dict(rng[1][3]).get("end") if rng[0] == "iter" and rng[1][0] == "ctor" else None
+                end = L.loop_count(rng)
                 dec = L.decode_of(end, it[2]) if end is not None else None
                 if dec != ("u16", "le"):
                     probs.append("a count is decoded as %s, S3 says u16 little-endian" % (dec,))
